@@ -102,7 +102,7 @@ type State struct {
 	Panicked     bool
 	Trace        []string
 	Dead         bool
-	AllHavocs    []func(addr Term) Term
+	AllHavocs    []allHavoc
 	GhostPrev    []ghostStep
 	Closes       []Term
 	Volatile     []Term
@@ -110,6 +110,7 @@ type State struct {
 	LocksTouched []Term
 	OwnedClose   []Term
 	Universals   []universal
+	UnivDone     map[string]bool // (universal, index) pairs already instantiated (copy on write)
 	LockSnap     *State // state right after the first Lock() on this path
 	HeldMus      []Term // mutexes currently held by this goroutine on this path
 	Clock        int    // allocation counter at the last mutation of this state's memory
@@ -143,7 +144,7 @@ func (s *State) Clone() *State {
 		Seq:          s.Seq,
 		Panicked:     s.Panicked,
 		Trace:        append([]string(nil), s.Trace...),
-		AllHavocs:    append([]func(addr Term) Term(nil), s.AllHavocs...),
+		AllHavocs:    append([]allHavoc(nil), s.AllHavocs...),
 		GhostPrev:    append([]ghostStep(nil), s.GhostPrev...),
 		Closes:       append([]Term(nil), s.Closes...),
 		Volatile:     append([]Term(nil), s.Volatile...),
@@ -151,6 +152,7 @@ func (s *State) Clone() *State {
 		LocksTouched: append([]Term(nil), s.LocksTouched...),
 		OwnedClose:   s.OwnedClose,
 		Universals:   append([]universal(nil), s.Universals...),
+		UnivDone:     s.UnivDone,
 		LockSnap:     s.LockSnap,
 		HeldMus:      append([]Term(nil), s.HeldMus...),
 		Clock:        s.Clock,
